@@ -112,6 +112,12 @@ static inline ld rabs1(ref_t v) { return fabsl(creall(v)) + fabsl(cimagl(v)); }
 #define GSSVX       PFN(gssvx)
 #define GSTRF       PFN(gstrf)
 #define GSTRF_INIT  PFN(gstrf_init)
+/* underflow unit of the working precision: fl(a op b) = (a op b)(1+delta) + eta, |eta| <= HX_UFL (gradual underflow) */
+#if defined(PREC_S) || defined(PREC_C)
+#define HX_UFL ((long double)1.401298464324817e-45L)
+#else
+#define HX_UFL ((long double)4.9406564584124654e-324L)
+#endif
 #define GSTRS       FN(gstrs)
 #define GSRFS       FN(gsrfs)
 #define GSCON       FN(gscon)
@@ -210,6 +216,7 @@ uint64_t csc_hash(const csc_t *A);
 /* generators (gen.c): returns 0 on success */
 int gen_matrix(const case_t *c, rng_t *r, csc_t *A);
 extern int_t gen_onesK[64]; extern int gen_nones;
+extern int_t gen_zerocols[16]; extern int gen_nzerocols;
 long ones_expected_info(const int_t *perm_c);
 void gen_rhs(rng_t *r, int_t n, int_t nrhs, int_t ldb, elem_t *B, const char *mode);
 
@@ -230,6 +237,8 @@ typedef struct {
 void   mon_reset(void);                  /* clears logs, installs callbacks */
 void   mon_enable(int events, uint64_t pert_seed, int pert_mode, int pert_level, int nprocs);
 void   mon_disable(void);
+void   mon_watch_start(void);     /* persistent deadlock-watch thread (counted in hx_extra_threads) */
+extern int hx_extra_threads; extern long hx_cur_case_id;
 size_t mon_collect(ev_t **out);          /* merged + sorted by seq; caller frees */
 int    mon_threads_seen(void);
 void   mon_slots_check_report(void);     /* adds slot-bound failures to the json */
